@@ -127,6 +127,8 @@ func (s *syncSource) RequestBlock(ctx context.Context, hash bitcoin.Hash32, hand
 	switch behaviour {
 	case "deliver":
 		feed(b)
+	case "silent":
+		// the node accepts the request and never answers
 	case "drop":
 		onStop(bg)
 	case "wrong":
@@ -282,6 +284,24 @@ func syncScenario(c syncConfig) func() func() []string {
 				if seen[h] > 1 {
 					problems = append(problems, fmt.Sprintf("processed-twice: block %s processed %d times (order %v)", b.label, seen[h], order))
 				}
+				// contiguity: the block below it must have been processed (before this run or earlier
+				// in it), unless it is the first owed block at the start height
+				if b.height > c.start && seen[h] == 1 {
+					parentDone := false
+					for _, ph := range c.processed {
+						if ph >= 1 && ph <= len(chain.main) && chain.main[ph-1].hash == b.header.PrevBlock {
+							parentDone = true
+						}
+					}
+					for _, earlier := range proc.coinbase[:len(order)-1] {
+						if earlier == b.header.PrevBlock {
+							parentDone = true
+						}
+					}
+					if !parentDone {
+						problems = append(problems, fmt.Sprintf("not-contiguous: block %s (height %d) processed although the block below it was not processed (order %v)", b.label, b.height, order))
+					}
+				}
 				if b.height <= last && seen[h] == 1 && !onOtherBranch(chain, order) {
 					problems = append(problems, fmt.Sprintf("out-of-order: block %s (height %d) processed after height %d (order %v)", b.label, b.height, last, order))
 				}
@@ -363,6 +383,10 @@ func c05Scenarios(thorough bool) []*scenario {
 	add(syncConfig{length: 2, start: 1, events: []string{"extend"}}, 0, 1)
 	add(syncConfig{length: 2, start: 1, events: []string{"reorg"}, forkAt: 1, forkLen: 1}, 0, 1)
 	add(syncConfig{length: 3, start: 1, events: []string{"reorg"}, forkAt: 1, forkLen: 2}, 0)
+	// a request that is pending (the node never answers) while its block leaves the best chain:
+	// the 10 s orphan check must abandon it, and a later round continues on the new best chain
+	add(syncConfig{length: 3, start: 1, script: map[string][]string{"a2": {"silent", "silent"}}, events: []string{"reorg"}, forkAt: 1, forkLen: 3}, 0)
+	add(syncConfig{length: 4, start: 1, processed: []int{1}, script: map[string][]string{"a3": {"silent", "silent"}}, events: []string{"reorg"}, forkAt: 2, forkLen: 3}, 0)
 	if thorough {
 		add(syncConfig{length: 2, start: 1, concurrent: 2, script: map[string][]string{"a1": {"drop"}}}, 0, 1)
 		add(syncConfig{length: 3, start: 2, events: []string{"trigger", "extend"}}, 0, 1)
